@@ -14,6 +14,9 @@ typedef struct { unsigned char *p; size_t n; } buf_t;
    (at least 1 byte allocated so ASan sees tight bounds for n > 0). */
 int  hx_hex(const char *s, buf_t *b);
 void hx_free(buf_t *b);
+void *hx_alloc(size_t n);      /* exact-size block at the configured alignment offset (HX_ALIGN) */
+void hx_release(void *p);
+void hx_set_align(void);
 void hx_put_hex(FILE *o, const unsigned char *p, size_t n);   /* prints "-" for n == 0 */
 int  hx_u64(const char *s, uint64_t *v);
 
